@@ -819,6 +819,120 @@ fn run_dearmor_consumers(ctx: &mut Ctx, key: &SignedSecretKey) {
     }
 }
 
+/// the file sinks of the builder (`to_file`, `to_armored_file`): the file holds exactly what
+/// `to_writer` / `to_armored_writer` produce — also when a longer file was there before — and a sink
+/// that cannot take the data (`/dev/full`) is an error (oracle only)
+fn run_file_sinks(ctx: &mut Ctx, key: &SignedSecretKey) {
+    let mut rng = ChaCha8Rng::seed_from_u64(ctx.seed ^ 0xC09B);
+    let base = Cfg { utf8: false, compression: None, sign: false, enc: Enc::None, armor: false, chunk: 512, algs: DEF };
+    let dir = std::env::temp_dir().join(format!("verif-c09-files-{}", std::process::id()));
+    let _ = std::fs::create_dir_all(&dir);
+    let path = dir.join("out.pgp");
+    let cfgs = [base, Cfg { enc: Enc::V1, ..base }, Cfg { enc: Enc::V2, ..base }, Cfg { compression: Some(CompressionAlgorithm::ZLIB), ..base }, Cfg { armor: true, ..base }, Cfg { armor: true, enc: Enc::V2, ..base }];
+    // (sizes go down as well as up: what an earlier, longer message left in the file must be gone)
+    let sizes = [5000usize, 100, 20000, 0, 700, 3];
+    for cfg in &cfgs {
+        for &n in &sizes {
+            let data = payload(&mut rng, false, n);
+            let site = format!("MessageBuilder::to_file / to_armored_file {cfg:?}");
+            // `None`: into memory through to_writer / to_armored_writer; `Some(path)`: through the file sink
+            let write = |target: Option<&std::path::Path>| -> Result<Vec<u8>, String> {
+                let mut r = ChaCha8Rng::seed_from_u64(19);
+                macro_rules! fin {
+                    ($b:expr) => {{
+                        let mut b = $b;
+                        b.partial_chunk_size(cfg.chunk).map_err(|e| e.to_string())?;
+                        if let Some(c) = cfg.compression {
+                            b.compression(c);
+                        }
+                        match (target, cfg.armor) {
+                            (Some(t), true) => b.to_armored_file(&mut r, t, ArmorOptions::default()).map(|_| Vec::new()).map_err(|e| e.to_string()),
+                            (Some(t), false) => b.to_file(&mut r, t).map(|_| Vec::new()).map_err(|e| e.to_string()),
+                            (None, true) => { let mut v = Vec::new(); b.to_armored_writer(&mut r, ArmorOptions::default(), &mut v).map(|_| v).map_err(|e| e.to_string()) }
+                            (None, false) => { let mut v = Vec::new(); b.to_writer(&mut r, &mut v).map(|_| v).map_err(|e| e.to_string()) }
+                        }
+                    }};
+                }
+                match cfg.enc {
+                    Enc::None => fin!(MessageBuilder::from_bytes("", data.clone())),
+                    Enc::V1 => {
+                        let mut b = MessageBuilder::from_bytes("", data.clone()).seipd_v1(&mut r, cfg.algs.sym);
+                        b.set_session_key(session_key(&cfg.algs).into()).map_err(|e| e.to_string())?;
+                        fin!(b)
+                    }
+                    Enc::V2 => {
+                        let cs = ChunkSize::try_from(cfg.algs.cs).map_err(|e| e.to_string())?;
+                        let mut b = MessageBuilder::from_bytes("", data.clone()).seipd_v2(&mut r, cfg.algs.sym, cfg.algs.aead, cs);
+                        b.set_session_key(session_key(&cfg.algs).into()).map_err(|e| e.to_string())?;
+                        fin!(b)
+                    }
+                }
+            };
+            let Ok(Ok(reference)) = guarded(|| write(None)) else { continue };
+            let before = std::fs::metadata(&path).map(|m| m.len()).unwrap_or(0);
+            let r = guarded(|| write(Some(&path)));
+            let on_disk = std::fs::read(&path).unwrap_or_default();
+            ctx.oracle("output_independent_of_sink_schedule", &site, &format!("n={n} file sink, previous content {before} octets"), matches!(r, Ok(Ok(_))) && on_disk == reference, &format!("{:?}: file holds {} octets, to_writer gives {}", r.as_ref().map(|x| x.as_ref().map(|_| ())), on_disk.len(), reference.len()));
+            let rb = guarded(|| read_back(cfg, key, &on_disk[..], Pattern::ReadToEnd));
+            ctx.oracle("reference_roundtrip", &site, &format!("n={n} file sink, read back"), matches!(&rb, Ok(Ok((p, _))) if *p == data), &format!("{:?}", rb.as_ref().map(|x| x.as_ref().map(|(p, v)| (p.len(), *v)))));
+            // a sink that cannot take anything
+            if std::path::Path::new("/dev/full").exists() {
+                let r = guarded(|| write(Some(std::path::Path::new("/dev/full"))));
+                ctx.oracle("sink_fault_surfaces", &site, &format!("n={n} /dev/full"), matches!(r, Ok(Err(_))), &format!("{:?}", r.as_ref().map(|x| x.as_ref().map(|_| ()))));
+            } else {
+                ctx.stat("file_sinks:no_dev_full");
+            }
+            ctx.stat("file_sinks");
+        }
+    }
+    let _ = std::fs::remove_dir_all(&dir);
+}
+
+/// detached signing from a reader that delivers short reads: the signature is over all of the data
+/// (oracle only; both the binary and the text entry point, verified over the whole document)
+fn run_signing_sources(ctx: &mut Ctx, key: &SignedSecretKey) {
+    use pgp::composed::DetachedSignature;
+    let mut rng = ChaCha8Rng::seed_from_u64(ctx.seed ^ 0xC09C);
+    let pk = key.to_public_key();
+    for n in [0usize, 1, 5000, 70000, 200000] {
+        let data = payload(&mut rng, true, n);
+        for sched in [vec![], vec![1usize, 4999], vec![2500, 1, 2499], vec![65536, 1], vec![65535, 2, 65536], vec![100; 700], vec![8192, 8191, 1, 8192]] {
+            for text in [false, true] {
+                let r = guarded(|| {
+                    let src = ScheduledReader::new(&data, &sched);
+                    let sig = if text {
+                        DetachedSignature::sign_text_data(&mut rng, &key.primary_key, &Password::empty(), HashAlgorithm::Sha256, src)
+                    } else {
+                        DetachedSignature::sign_binary_data(&mut rng, &key.primary_key, &Password::empty(), HashAlgorithm::Sha256, src)
+                    }
+                    .map_err(|e| e.to_string())?;
+                    sig.verify(&pk.primary_key, &data[..]).map_err(|e| e.to_string())
+                });
+                ctx.oracle("output_independent_of_source_schedule", "DetachedSignature::sign_*_data(reader) -> verify(whole document)", &format!("n={n} text={text} schedule={:?}", &sched[..sched.len().min(6)]), matches!(r, Ok(Ok(()))), &format!("{r:?}"));
+                // ... and the verifying side reading the document from such a source
+                let r = guarded(|| {
+                    let sig = if text {
+                        DetachedSignature::sign_text_data(&mut rng, &key.primary_key, &Password::empty(), HashAlgorithm::Sha256, &data[..])
+                    } else {
+                        DetachedSignature::sign_binary_data(&mut rng, &key.primary_key, &Password::empty(), HashAlgorithm::Sha256, &data[..])
+                    }
+                    .map_err(|e| e.to_string())?;
+                    let whole = sig.signature.verify(&pk.primary_key, ScheduledReader::new(&data, &sched)).is_ok();
+                    // a document that goes on behind what was signed, delivered so that a read ends where the signed part ends
+                    let mut longer = data.clone();
+                    longer.extend_from_slice(b"and more");
+                    let mut s2 = vec![data.len().max(1)];
+                    s2.extend_from_slice(&sched);
+                    let extended = sig.signature.verify(&pk.primary_key, ScheduledReader::new(&longer, &s2)).is_ok();
+                    Ok::<_, String>((whole, extended))
+                });
+                ctx.oracle("read_independent_of_schedule", "Signature::verify(reader): the whole document, and the document followed by more", &format!("n={n} text={text} schedule={:?}", &sched[..sched.len().min(6)]), matches!(r, Ok(Ok((true, false)))), &format!("(verifies whole, verifies extended) = {r:?}"));
+                ctx.stat("signing_sources");
+            }
+        }
+    }
+}
+
 /// `util::fill_buffer` over sources whose reads are interrupted / fail (model op `fill_buffer_intr`)
 fn run_fill_buffer_intr(ctx: &mut Ctx) {
     struct EvSrc {
@@ -1095,6 +1209,8 @@ pub fn run(ctx: &mut Ctx) {
     run_dearmor_consumers(ctx, &key);
     run_next_hdr(ctx);
     run_fill_buffer_intr(ctx);
+    run_file_sinks(ctx, &key);
+    run_signing_sources(ctx, &key);
     // thorough: repeated with fresh payloads, schedules and fault positions
     let rounds = ctx.pick(1u64, 160u64);
     let base = ctx.seed;
